@@ -24,33 +24,39 @@ def mk (c s mn mx : String) : Option (Option Summary) :=
   | some c, some s, some mn, some mx => some (Summary.fromData c s mn mx)
   | _, _, _, _ => none
 
+/-- one operation of the sequence; `none` = malformed, `some none` = refused operand -/
+def stepOp (st : Summary) : List String → Option (Option Summary × List String)
+  | "new" :: rest => some (some st, rest)
+  | "rescale" :: f :: rest => (parseF64 f).map fun f => (some (st.rescale f), rest)
+  | "reweight" :: f :: rest => (parseF64 f).map fun f => (some (st.reweight f), rest)
+  | "add" :: v :: w :: rest =>
+    match parseF64 v, parseF64 w with
+    | some v, some w => some (some (st.add v w), rest)
+    | _, _ => none
+  | "merge" :: c2 :: s2 :: mn2 :: mx2 :: rest =>
+    match mk c2 s2 mn2 mx2 with
+    | none => none
+    | some none => some (none, rest)
+    | some (some o) => some (some (st.mergeWith o), rest)
+  | _ => none
+
+/-- the operations are applied from left to right (fuel: one unit per token) -/
+def runOps : Nat → Summary → List String → String
+  | 0, _, _ => "bad-op"
+  | _, st, [] => showStat st
+  | fuel + 1, st, ops =>
+    match stepOp st ops with
+    | none => "bad-op"
+    | some (none, _) => "err"
+    | some (some st', rest) => runOps fuel st' rest
+
 def run (args : List String) : String :=
   match args with
-  | c :: s :: mn :: mx :: op =>
+  | c :: s :: mn :: mx :: ops =>
     match mk c s mn mx with
     | none => "bad-op"
     | some none => "err"
-    | some (some st) =>
-      match op with
-      | ["new"] => showStat st
-      | ["rescale", f] =>
-        match parseF64 f with
-        | some f => showStat (st.rescale f)
-        | none => "bad-op"
-      | ["reweight", f] =>
-        match parseF64 f with
-        | some f => showStat (st.reweight f)
-        | none => "bad-op"
-      | ["add", v, w] =>
-        match parseF64 v, parseF64 w with
-        | some v, some w => showStat (st.add v w)
-        | _, _ => "bad-op"
-      | ["merge", c2, s2, mn2, mx2] =>
-        match mk c2 s2 mn2 mx2 with
-        | none => "bad-op"
-        | some none => "err"
-        | some (some o) => showStat (st.mergeWith o)
-      | _ => "bad-op"
+    | some (some st) => if ops.isEmpty then "bad-op" else runOps (ops.length + 1) st ops
   | _ => "bad-op"
 
 end DDS.Driver.StatOps
